@@ -138,7 +138,7 @@ def scan(chunk):
         else:
             fk, act, argstxt, tk, _ = sp
             args = json.loads(argstxt) if act in ("Slice", "Copy") else None
-        if act == "Conv" or act == "Make":
+        if act in ("Conv", "Make", "Write"):
             conv.append(txt)
             continue
         e = (fk, tk, act, sign_of(act, args))
@@ -385,7 +385,7 @@ def replay_chunk(chunk):
         if not txt or '"act":"Meta"' in txt[:40]:
             continue
         fk, act, args, tk, ret, obs = parse(txt)
-        if act in ("Conv", "Copy", "Make"):
+        if act in ("Conv", "Copy", "Make", "Write"):
             continue  # few; all of them are checked at Sequence level in phase C
         rep.stats["records"] += 1
         sampled = rate > 0 and (zlib.crc32(txt.encode()) ^ salt) % 1000003 < rate * 1000003
@@ -422,7 +422,7 @@ def replay_edges(job):
                 rep.stats["distinct_nontrivial"] += 1
         elif what == "make":
             for kind in I.KINDS:
-                check_make(rep, kind, 0, item[1], item[2], item[3], item[4])
+                check_make(rep, kind, 0, item[1], item[2], item[3], item[4], item[5])
         elif what == "state":
             for kind in I.KINDS:
                 for v in G["method_variants"]:
@@ -430,7 +430,11 @@ def replay_edges(job):
     return rep.dump()
 
 
-def check_make(rep, kind, variant, fk, how, obs, txts):
+def reading(x):
+    return (str(x), "".join(x), len(x), x.parent_coordinates(), x.annotation_offset)
+
+
+def check_make(rep, kind, variant, fk, how, obs, txts, write_outcomes=()):
     """the root made from raw data given as `how` is the root view, and the frame explored from it behaves the same"""
     state = json.loads(fk)
     root = I.root_string(G["seed"], state[0], state[1], variant)
@@ -443,7 +447,7 @@ def check_make(rep, kind, variant, fk, how, obs, txts):
     if made is None:
         rep.stats["representation_not_accepted"] += 1
         return
-    o, source = made
+    o, source, data = made
     rep.stats["made"] += 1
     rep.stats["seq_level"] += 1
     diffs, drift = [], []
@@ -458,6 +462,30 @@ def check_make(rep, kind, variant, fk, how, obs, txts):
             rep.add(f"{kind}:seq:Make:rep={how}:mutates-source",
                     lambda: {**ctx, "source_before": list(I.source_reading(fresh)), "source_after": list(I.source_reading(source))},
                     f"constructing from an existing {how} with annotation_offset={state[1]} changed that {how}")
+    if write_outcomes and len(root):
+        # the caller reuses the raw data it handed over: a stuttering step for everything made earlier
+        earlier = [("the sequence", o)]
+        for txt in txts[:40]:
+            f2, act, args, tk, ret, ob2 = parse(txt)
+            if f2 == fk and act in ("Slice", "Rc", "Index") and ret == "ok" and len(earlier) < 10:
+                try:
+                    earlier.append((f"{act}{pyargs(args)}", I.apply_seq(o, act, args)))
+                except Exception:
+                    pass
+        before = [reading(x) for _, x in earlier]
+        outcome = I.caller_overwrites(data)
+        rep.stats["caller_writes"] += 1
+        rep.stats["seq_level"] += len(earlier)
+        after = [reading(x) for _, x in earlier]
+        if outcome not in write_outcomes:
+            rep.add(f"{kind}:seq:Write:rep={how}:outcome-{outcome}", lambda: {**ctx, "allowed": list(write_outcomes)}, "the caller's write ended in an outcome the spec does not list")
+        changed = [name for (name, _), b, a in zip(earlier, before, after) if a != b]
+        if changed:
+            i = [n for n, _ in earlier].index(changed[0])
+            rep.add(f"{kind}:seq:Write:rep={how}:earlier-views-changed",
+                    lambda: {**ctx, "write": outcome, "changed": changed, "first": changed[0], "before": list(before[i]), "after": list(after[i])},
+                    f"after the caller overwrote the {how} it had handed over, {len(changed)} object(s) made earlier read differently")
+            return
     saved_c, saved_s = G["cache"][(kind, variant)], G["snap"][(kind, variant)]
     G["cache"][(kind, variant)], G["snap"][(kind, variant)] = {fk: (o, root)}, {}
     G["level"] = f"from-{how}"
@@ -582,10 +610,14 @@ def stage(run, scratch, name, cfg, totals, driftacc, tm, sample_rate, **tlc_kw):
             succ[fk].append((tk, txt))
     convalts = defaultdict(list)
     makes = []
+    writes = defaultdict(set)  # (root, representation) -> outcomes the spec allows for the caller's write
     for txt in conv:
         fk, act, args, tk, ret, obs = parse(txt)
         if act == "Make":
             makes.append((fk, args[0], obs))
+            continue
+        if act == "Write":
+            writes[(fk, args[0])].update(args[1])
             continue
         convalts[(fk, json.dumps(args))].append((tk, obs))
         states.setdefault(fk, None)
@@ -643,7 +675,7 @@ def stage(run, scratch, name, cfg, totals, driftacc, tm, sample_rate, **tlc_kw):
         own = [t for f, t in fe if f == fk]
         rest = sorted(t for f, t in fe if f != fk and f in seen)
         rnd.shuffle(rest)
-        by_state[fk].append(("make", fk, rep, obs, own + rest[:nsample]))
+        by_state[fk].append(("make", fk, rep, obs, own + rest[:nsample], sorted(writes.get((fk, rep), ()))))
     order = sorted(by_state, key=lambda k: (json.loads(k)[:4], k))
     jobs, cur = [], []
     target = max(200, sum(len(v) for v in by_state.values()) // (nproc * 12))
